@@ -8,8 +8,10 @@ import numpy as np
 
 import vlib
 from vlib import rlit
+from harness import c04x
 
-GEN = ['Gauss']
+GEN = ['Gauss'] + c04x.GEN_EXTRA
+EXTRA_TARGETS = c04x.EXTRA_TARGETS
 LEVEL = 'proof'
 TRUSTED = [
     'Coq 8.16.1 kernel; Coquelicot (is_derive, auto_derive) and the real-number axioms of the standard library '
@@ -22,6 +24,8 @@ TRUSTED = [
 ]
 ASSUMPTIONS = ['binary64 round-off of the implementation is bounded per case by tol = 2^-36 * max(|value|, 1e-3)',
                'amp, sx, sy non-zero (the derivative of amp uses model/amp)']
+TRUSTED += c04x.TRUSTED_EXTRA
+ASSUMPTIONS += c04x.ASSUMPTIONS_EXTRA
 NAMES = ['amp', 'xo', 'yo', 'sx', 'sy', 'theta']
 HEADER = ("From Coq Require Import Reals.\nFrom Interval Require Import Tactic.\n"
           "From Aegean Require Import Lib.RBase Gen.Gauss.\nOpen Scope R_scope.")
@@ -65,7 +69,10 @@ def findiff_problem(comps, varies, x, y):
     """central differences on ntwodgaussian_lmfit vs fitting.jacobian (the search oracle)"""
     from AegeanTools import fitting
     pars = mkpars(comps, varies)
-    J = fitting.jacobian(pars, x, y)
+    try:
+        J = fitting.jacobian(pars, x, y)
+    except Exception as e:  # noqa
+        return f'fitting.jacobian raised {type(e).__name__}: {e}'
     k = 0
     for i, (c, v) in enumerate(zip(comps, varies)):
         for n, vv in zip(NAMES, v):
@@ -112,7 +119,23 @@ def stderr_problem(comps, varies, rng_seed, with_B, order=None):
         if not np.allclose(B.dot(B.T).dot(C), np.eye(npix), atol=1e-6):
             return 'Bmatrix(C).Bmatrix(C)^T is not inv(C)', None
     pars = mkpars(comps, varies)
-    J = fitting.jacobian(pars, mask[0], mask[1])          # rows = free parameters
+    try:
+        J = fitting.jacobian(pars, mask[0], mask[1])          # rows = free parameters
+    except Exception as e:  # noqa
+        return f'fitting.jacobian raised {type(e).__name__}: {e}', None
+    # C04_rows: the k-th row is the derivative with respect to the k-th free parameter, computed from ITS component alone -
+    # i.e. the row that the all-free Jacobian of that single component has for that parameter (those rows are certified
+    # against the generated Coq expressions in part (a)); no row may depend on which other parameters are free
+    want = []
+    for i, (c, v) in enumerate(zip(comps, varies)):
+        Ji = fitting.jacobian(mkpars([c], [[1] * 6]), mask[0], mask[1])
+        want += [(i, p, Ji[p]) for p in range(6) if v[p]]
+    if len(J) != len(want):
+        return f'fitting.jacobian returned {len(J)} rows for {len(want)} free parameters', None
+    for k, (i, p, row) in enumerate(want):
+        if not np.allclose(J[k], row, rtol=1e-12, atol=1e-14 * float(np.max(np.abs(row)) or 1.0)):
+            return (f'row {k} of fitting.jacobian (component {i}, parameter {NAMES[p]}) is not the derivative that component {i} '
+                    f'alone gives for {NAMES[p]}: max difference {float(np.max(np.abs(J[k] - row))):.3g}'), None
     M = np.vstack(J) / errs
     if B is not None:
         M = M.dot(B)
@@ -131,7 +154,10 @@ def stderr_problem(comps, varies, rng_seed, with_B, order=None):
         return None, None
     if not np.all(np.isfinite(sig)) or np.linalg.cond(fisher) > 1e10:
         return None, None
-    out = fitting.covar_errors(mkpars(comps, varies, order or ORDERS[rng_seed % 5 % 4]), data, errs=errs, B=B, C=None)
+    try:
+        out = fitting.covar_errors(mkpars(comps, varies, order or ORDERS[rng_seed % 5 % 4]), data, errs=errs, B=B, C=None)
+    except Exception as e:  # noqa
+        return f'fitting.covar_errors raised {type(e).__name__}: {e}', None
     got = {}
     for i, v in enumerate(varies):
         for p, vv in enumerate(v):
@@ -238,10 +264,14 @@ def run(ctx, model_ok=True):
         if msg:
             ctx.mismatch('finite-difference oracle on fitting.jacobian', {'components': comps, 'vary': varies}, impl=msg,
                          is_violation={'kind': 'findiff', 'components': comps, 'vary': varies, 'what': msg})
+    c04x.run_extra(ctx, model_ok)
 
 
 def search(ctx):
     rng = ctx.rng
+    extra = c04x.search_extra(ctx)
+    if extra:
+        return extra
     xs, ys = np.meshgrid(np.arange(12.0), np.arange(13.0))
     xs, ys = xs.ravel(), ys.ravel()
     t0 = time.time()
@@ -288,6 +318,8 @@ def replay(ctx, obj):
         for b in obj.get('broken', []):
             print('  ', b.get('what'), str(b.get('detail', b.get('case', '')))[:400])
         return 1
+    if str(fi.get('kind', '')).startswith('c04x'):
+        return c04x.replay_extra(ctx, fi)
     xs, ys = np.meshgrid(np.arange(12.0), np.arange(13.0))
     xs, ys = xs.ravel(), ys.ravel()
     msg = findiff_problem(fi['components'], fi['vary'], xs, ys)
